@@ -11,6 +11,7 @@ import (
 	"github.com/akalin/gopar/par2"
 
 	"verifh/core"
+	"verifh/envfs"
 	"verifh/ref/rpar2"
 	"verifh/scen"
 )
@@ -35,6 +36,7 @@ type encProtoCase struct {
 	Prefix []int  `json:"prefix"` // first operations; the case enumerates every continuation up to Depth
 	Depth  int    `json:"depth"`
 	Seq    []int  `json:"seq,omitempty"` // replay: exactly this sequence
+	Disk   bool   `json:"disk,omitempty"` // exported constructor on a real directory (else the same object on the owned in-memory filesystem)
 }
 
 const (
@@ -53,10 +55,10 @@ var epNames = []string{"Load", "Compute", "Write", "a:=short", "a:=long", "a:=or
 
 var encProtoSeq int
 
-func encProtoGen(g *core.Gen, fmtName string, depth int, emit func(*encProtoCase)) {
+func encProtoGen(g *core.Gen, fmtName string, depth int, disk bool, emit func(*encProtoCase)) {
 	for a := 0; a < epNOps; a++ {
 		for b := 0; b < epNOps; b++ {
-			emit(&encProtoCase{Kind: "encproto", Fmt: fmtName, Prefix: []int{a, b}, Depth: depth})
+			emit(&encProtoCase{Kind: "encproto", Fmt: fmtName, Prefix: []int{a, b}, Depth: depth, Disk: disk})
 		}
 	}
 }
@@ -87,11 +89,47 @@ func encProtoRun(c *encProtoCase, r *core.Rec, wrap func(*encProtoCase) interfac
 }
 
 func encProtoOne(c *encProtoCase, seq []int, r *core.Rec, wrap func(*encProtoCase) interface{}) {
-	encProtoSeq++
-	dir := filepath.Join(workerScratch(), fmt.Sprintf("ep-%d", encProtoSeq))
-	os.RemoveAll(dir)
-	os.MkdirAll(dir, 0755)
-	defer os.RemoveAll(dir)
+	dir := "/d"
+	var mem *envfs.FS
+	if c.Disk {
+		encProtoSeq++
+		dir = filepath.Join(workerScratch(), fmt.Sprintf("ep-%d", encProtoSeq))
+		os.RemoveAll(dir)
+		os.MkdirAll(dir, 0755)
+		defer os.RemoveAll(dir)
+	} else {
+		mem = envfs.New()
+	}
+	writeFile := func(p string, b []byte) {
+		if mem != nil {
+			mem.Put(p, b)
+		} else {
+			ioutil.WriteFile(p, b, 0644)
+		}
+	}
+	removeFile := func(p string) {
+		if mem != nil {
+			mem.Del(p)
+		} else {
+			os.Remove(p)
+		}
+	}
+	outputs := func() map[string][]byte {
+		out := map[string][]byte{}
+		if mem != nil {
+			for p, b := range mem.Files {
+				if strings.HasPrefix(p, dir+"/s.") {
+					out[p] = b
+				}
+			}
+			return out
+		}
+		for _, p := range listOutputs(dir, "s") {
+			b, _ := ioutil.ReadFile(p)
+			out[p] = b
+		}
+		return out
+	}
 	names := []string{"a", "b", "c"}
 	slice := 4
 	variants := map[int][]byte{
@@ -103,7 +141,7 @@ func encProtoOne(c *encProtoCase, seq []int, r *core.Rec, wrap func(*encProtoCas
 	bOrig := cur["b"]
 	var paths []string
 	for _, n := range names {
-		ioutil.WriteFile(filepath.Join(dir, n), cur[n], 0644)
+		writeFile(filepath.Join(dir, n), cur[n])
 		paths = append(paths, filepath.Join(dir, n))
 	}
 	viol := func(sig, f string, a ...interface{}) {
@@ -111,16 +149,21 @@ func encProtoOne(c *encProtoCase, seq []int, r *core.Rec, wrap func(*encProtoCas
 		for _, o := range seq {
 			ops = append(ops, epNames[o])
 		}
-		r.ViolateWith(sig, fmt.Sprintf(f, a...)+"\nsequence: "+strings.Join(ops, ", "), wrap(&encProtoCase{Kind: "encproto", Fmt: c.Fmt, Seq: append([]int{}, seq...)}))
+		r.ViolateWith(sig, fmt.Sprintf(f, a...)+"\nsequence: "+strings.Join(ops, ", "), wrap(&encProtoCase{Kind: "encproto", Fmt: c.Fmt, Seq: append([]int{}, seq...), Disk: c.Disk}))
 	}
 	const volumes, blocks = 2, 3
 	var e1 *par1.Encoder
 	var e2 *par2.Encoder
 	var err error
-	if c.Fmt == "p1" {
+	switch {
+	case c.Fmt == "p1" && c.Disk:
 		e1, err = par1.NewEncoder(par1.DoNothingCreateDelegate{}, paths, volumes)
-	} else {
+	case c.Fmt == "p1":
+		e1, err = par1.VerifNewEncoder(mem, par1.DoNothingCreateDelegate{}, paths, volumes)
+	case c.Disk:
 		e2, err = par2.NewEncoder(par2.DoNothingCreateDelegate{}, dir, paths, slice, blocks, 2)
+	default:
+		e2, err = par2.VerifNewEncoder(mem, par2.DoNothingCreateDelegate{}, dir, paths, slice, blocks, 2)
 	}
 	if err != nil {
 		viol("encoder-protocol:new-encoder-failed", "%v", err)
@@ -139,13 +182,13 @@ func encProtoOne(c *encProtoCase, seq []int, r *core.Rec, wrap func(*encProtoCas
 		switch op {
 		case epAShort, epALong, epAOrig:
 			cur["a"] = variants[op]
-			ioutil.WriteFile(paths[0], cur["a"], 0644)
+			writeFile(paths[0], cur["a"])
 		case epBDel:
 			delete(cur, "b")
-			os.Remove(paths[1])
+			removeFile(paths[1])
 		case epBRestore:
 			cur["b"] = bOrig
-			ioutil.WriteFile(paths[1], bOrig, 0644)
+			writeFile(paths[1], bOrig)
 		case epLoad:
 			var lerr error
 			pi := core.Catch(func() {
@@ -201,8 +244,8 @@ func encProtoOne(c *encProtoCase, seq []int, r *core.Rec, wrap func(*encProtoCas
 			computed = wellFormed && cerr == nil
 			key += fmt.Sprintf("C%v", cerr == nil)
 		case epWrite:
-			for _, old := range listOutputs(dir, "s") {
-				os.Remove(old)
+			for old := range outputs() {
+				removeFile(old)
 			}
 			var werr error
 			pi := core.Catch(func() {
@@ -231,11 +274,7 @@ func encProtoOne(c *encProtoCase, seq []int, r *core.Rec, wrap func(*encProtoCas
 				viol("encoder-protocol:write-failed:"+errClass(werr), "Write failed after load + compute: %v", werr)
 				return
 			}
-			files := map[string][]byte{}
-			for _, p := range listOutputs(dir, "s") {
-				b, _ := ioutil.ReadFile(p)
-				files[p] = b
-			}
+			files := outputs()
 			var datas [][]byte
 			var specs []rpar2.FileSpec
 			for _, n := range names {
